@@ -933,7 +933,9 @@ func blockHasEffect(b *ssa.BasicBlock) bool {
 // ---------------------------------------------------------------- R11e / R11f (C11): query wrappers are transparent
 
 // c11QueryWrappers: R11e — MatchAll collects every node the engine yields: the append of the iterator's current node is
-// control-dependent only on MoveNext() (no de-duplication or filtering in the wrapper). R11f — the expression string
+// control-dependent only on MoveNext() (no de-duplication or filtering in the wrapper); the MoveNext() answer may reach
+// the branch through a phi, a negation, or the boolean result of an iterator helper / iterator closure of the repository
+// whose every return is gated by MoveNext() alone (g5IsMoveNext). R11f — the expression string
 // handed to the xpath compiler (directly or through the go-corelib cache) is the wrapper's own parameter, untransformed.
 func c11QueryWrappers(c *core.Ctx) {
 	p := c.Pkg("idr")
@@ -981,27 +983,11 @@ func c11QueryWrappers(c *core.Ctx) {
 				}
 				m++
 				key := core.FuncKey(f) + " collects results"
-				// walk up the dominator tree: every If on the way must test a MoveNext() result
+				// every branch the append is control-dependent on must test a MoveNext() answer (directly, or through an
+				// iterator helper / closure whose boolean result is decided by MoveNext() alone)
 				bad := ""
-				for d := b; d != nil; d = d.Idom() {
-					id := d.Idom()
-					if id == nil {
-						break
-					}
-					ifi, ok := id.Instrs[len(id.Instrs)-1].(*ssa.If)
-					if !ok || id.Succs[0] == id.Succs[1] {
-						continue
-					}
-					// is d on exactly one side of the branch?
-					side0, side1 := id.Succs[0] == d || id.Succs[0].Dominates(d), id.Succs[1] == d || id.Succs[1].Dominates(d)
-					if side0 == side1 {
-						continue
-					}
-					cond := ifi.Cond
-					isMoveNext := false
-					if cc, ok := cond.(*ssa.Call); ok && core.IsCallTo(cc, "github.com/antchfx/xpath", "NodeIterator.MoveNext") {
-						isMoveNext = true
-					}
+				for _, cond := range g5GateConds(b) {
+					isMoveNext := g5IsMoveNext(cond, map[ssa.Value]bool{})
 					isErrTest := false
 					if bo, ok := cond.(*ssa.BinOp); ok && (core.IsNilConst(bo.X) || core.IsNilConst(bo.Y)) && (isErrorT(bo.X.Type()) || isErrorT(bo.Y.Type())) {
 						isErrTest = true
